@@ -769,6 +769,16 @@ fn cli_stress_leg(total: &mut Ev, thorough: bool) -> Result<(), String> {
     for (i, r) in results.iter_mut().enumerate() {
         if matches!(&r.2, Some(v) if v.contains("within")) {
             *r = run_one(i, &inputs[i].0, &inputs[i].1, 120);
+        } else if matches!(&r.2, Some(v) if !v.starts_with("infrastructure")) {
+            // a crash counts when it repeats (a process can also be killed by the machine's own shortage of
+            // memory while sixteen of them run side by side)
+            for _ in 0..2 {
+                let again = run_one(i, &inputs[i].0, &inputs[i].1, 120);
+                if again.2.is_none() {
+                    *r = again;
+                    break;
+                }
+            }
         }
     }
     for (tag, src, verdict) in results {
